@@ -31,7 +31,7 @@
 
 #define OSM_MAXCHILD 6     /* children per harness run */
 #define OSM_MAXWAIT  8     /* wait()/waitpid() calls per harness run */
-#define OSM_MAXFD    12    /* descriptors handed out by pipe/mkstemp: numbers OSM_FD0 .. OSM_FD0+OSM_MAXFD-1 */
+#define OSM_MAXFD    8    /* descriptors handed out by pipe/mkstemp: numbers OSM_FD0 .. OSM_FD0+OSM_MAXFD-1 */
 #define OSM_FD0      3
 #define OSM_MAXTMP   4
 #define OSM_MAXUNLINK 6
@@ -70,7 +70,8 @@ struct osm_tape {
 	int pipe_err[OSM_MAXCHILD];          /* k-th pipe(): 0 or errno */
 	int fcntl_err[2 * OSM_MAXCHILD];     /* k-th fcntl(): 0 or errno */
 	int fa_init_err[OSM_MAXCHILD];       /* k-th posix_spawn_file_actions_init(): 0 or errno */
-	int fa_dup2_err[2 * OSM_MAXCHILD];   /* k-th posix_spawn_file_actions_adddup2(): 0 or errno */
+	int fa_dup2_in_err[OSM_MAXCHILD];    /* adddup2(.., fd, 0) on the k-th file-actions object: 0 or errno */
+	int fa_dup2_out_err[OSM_MAXCHILD];   /* adddup2(.., fd, 1) on the k-th file-actions object: 0 or errno */
 	int mkstemp_err;                     /* mkstemp(): 0 or errno */
 };
 
@@ -82,6 +83,7 @@ struct osm_state {
 	int unknown_left;
 	int nfail;            /* spawn failures + children reaped with a status other than "exited 0" */
 	int nspawnfail;
+	unsigned term_due;    /* children (bit i = child[i]) that were live when the FIRST failure became known to the driver */
 	int badkill;          /* kill() to something that is not a live child, or with a signal other than SIGTERM */
 	int nkill;
 	int badclose;         /* close() of a descriptor that is not open */
@@ -104,6 +106,8 @@ int osm_status_valid(int status);        /* status word is one that wait() can r
 int osm_status_ok(int status);           /* "exited with 0" */
 int osm_nlive(void);                     /* children not yet reaped */
 int osm_was_unlinked(const char *path);  /* unlink(path) was called (pointer identity) */
+int osm_term_missing(void);              /* children of term_due that never received SIGTERM */
+int osm_write_ends_open(void);           /* pipe write ends still open in the driver */
 int osm_tmp_left(void);                  /* mkstemp files not unlinked */
 struct osm_child *osm_child_of(pid_t *pidp);  /* the live-or-dead child whose pid was stored at pidp most recently */
 pid_t osm_pretend_child(pid_t *pidp);    /* harness: register a live child as if spawned earlier */
